@@ -96,7 +96,7 @@ func (c *concShared) fail() {
 func (c *concShared) violate(class string, stepIdx int, detail string, extra any) {
 	c.fail()
 	upto := min(stepIdx, len(c.s.Steps)-1)
-	c.r.Violation(class, c.idx, "concurrent: "+detail, witness{Mode: "concurrent", Step: stepIdx, Detail: detail, Script: c.s.describe(upto), Extra: extra})
+	c.r.Violation(class, concBase+c.idx, "concurrent: "+detail, witness{Mode: "concurrent", Step: stepIdx, Detail: detail, Script: c.s.describe(upto), Extra: extra})
 }
 
 func (c *concShared) record(op porcupine.Operation) {
